@@ -921,14 +921,9 @@ func (g *lcGen) runBoot(b *lcBoot, seq int) (*beacon.ConsensusLightClient, strin
 		switch {
 		case err == nil:
 			return "ok " + lcStoreStr(c)
-		case strings.Contains(err.Error(), "invalid bootstrap"):
-			return "err=invalid_bootstrap"
-		case strings.Contains(err.Error(), "does not match expected hash"):
-			return "err=header_mismatch"
-		case strings.Contains(err.Error(), "committee proof is invalid"):
-			return "err=committee_proof"
 		}
-		return "err=other"
+		// which of several reasons a rejected bootstrap reports, and in what words, is not compared
+		return "err=rejected"
 	}()
 	return c, in, res
 }
